@@ -16,6 +16,8 @@
     guarded by a test of the *operand* width against NATIVE_INT_MAX_SIZE
 """
 import ast
+
+from sa.cfg import CFG
 import re
 
 from sa import cast
@@ -295,15 +297,20 @@ def run(ck):
 
     # ---------------------------------------------------------------- R5
     n5 = 0
+    from sa.facts import guard_facts as _gf5
+    r5cfg = CFG(fn)
+    r5facts = _gf5(r5cfg)
     for c in [x for x in walk_body(fn) if isinstance(x, ast.Call) and dotted(x.func) == "self._size2mask"]:
         arg = norm(c.args[0])
+        # must-facts at the call: some width is known to be <= NATIVE_INT_MAX_SIZE (any spelling / branch polarity)
         guards = []
-        p = getattr(c, "_parent", None)
-        ch = c
-        while p is not None and p is not fn:
-            if isinstance(p, ast.If) and "NATIVE_INT_MAX_SIZE" in norm(p.test) and any(_contains(s, ch) for s in p.body):
-                guards.append(norm(p.test))
-            ch, p = p, getattr(p, "_parent", None)
+        for nd_ in r5cfg.node_containing(c):
+            for ft in r5facts.get(nd_.id, frozenset()):
+                if ft[0] != "cmp" or "NATIVE_INT_MAX_SIZE" not in (ft[1] + ft[3]):
+                    continue
+                a_, op_, b_ = ft[1], ft[2], ft[3]
+                if ("NATIVE_INT_MAX_SIZE" in b_ and op_ in ("<=", "<")) or ("NATIVE_INT_MAX_SIZE" in a_ and op_ in (">=", ">")):
+                    guards.append("%s %s %s" % (a_, op_, b_))
         # the guarded width must be that of an operand (arg.size / expr.args[k].size), or expr.size when operand widths equal the result width
         branch = None
         ch, p = c, getattr(c, "_parent", None)
